@@ -765,10 +765,10 @@ class Parser(object):
 
     def p_equality_expr_noin(self, p):
         """equality_expr_noin : relational_expr_noin
-                              | equality_expr_noin EQEQ relational_expr
-                              | equality_expr_noin NE relational_expr
-                              | equality_expr_noin STREQ relational_expr
-                              | equality_expr_noin STRNEQ relational_expr
+                              | equality_expr_noin EQEQ relational_expr_noin
+                              | equality_expr_noin NE relational_expr_noin
+                              | equality_expr_noin STREQ relational_expr_noin
+                              | equality_expr_noin STRNEQ relational_expr_noin
         """
         if len(p) == 2:
             p[0] = p[1]
@@ -971,7 +971,7 @@ class Parser(object):
         """
         conditional_expr_noin \
             : logical_or_expr_noin
-            | logical_or_expr_noin CONDOP assignment_expr_noin COLON \
+            | logical_or_expr_noin CONDOP assignment_expr COLON \
                   assignment_expr_noin
         """
         if len(p) == 2:
